@@ -181,9 +181,11 @@ def s11_validation_orbits(ctx):
     whats = ["order", "sym", "translate", "scale"]
     args, meta = [], []
     ident = random_g(rng, "none")
-    for _ in range(budget(ctx.tier, 32, 400)):
+    # frames in which a verdict could leak from one row to another through process state (the under/overlap validator keeps its label on the class)
+    fixed = [["overlap", "underlap"], ["underlap", "overlap", "stacked"], ["overlap", "valid_y", "underlap", "vnode"], ["stacked", "underlap", "overlap"]]
+    for k in range(budget(ctx.tier, 32, 400)):
         geoms = []
-        for i, nm in enumerate(rng.sample(names, rng.randint(2, 4))):
+        for i, nm in enumerate(fixed[k] if k < len(fixed) else rng.sample(names, rng.randint(2, 4))):
             geoms += [place(g_, 64.0 * i, 0.0) for g_ in G[nm]]
         wk = [g_.wkt for g_ in geoms]
         args.append((wk, ident, 0, T))
